@@ -74,6 +74,10 @@ func zzLens(set, p int) []int {
 		return []int{0, 2 * p, 2*p + 1}
 	case 3:
 		return []int{1, p, 3 * p}
+	case 4:
+		return []int{2*p - 1, 3*p + 1, 4 * p}
+	case 5:
+		return []int{p + 1, 2 * p, 5*p - 1}
 	}
 	return []int{0, 1, 2}
 }
